@@ -335,9 +335,31 @@ def rows_of(d):
     return rows
 
 
+DESCRIPTIONS = [' -- ', '-----', 'use --retries 3', 'ends with a dash -', '--', 'a --> b', '<!-- not a comment -->', 'a < b & c > d',
+                'say "hi" to \'them\'', 'first line\nsecond line -- with dashes\n', '\tindented', ']]>', '&amp; &#10; &lt;', 'Ünï — long dash',
+                'plain words', '<xs:element name="fake"/>', '?> <?pi', '- - -']
+
+
+def _with_descriptions(rows, seed):
+    """the same rows with NON-EMPTY description texts (Descrip of C_C, EP_PKG, S_DT, S_ENUM, O_OBJ, O_ATTR, R_REL, O_REF):
+    descriptions are no part of the diagram - nothing a component or schema mirrors may depend on them"""
+    import random
+    rnd = random.Random(seed)
+    out = []
+    for t, v in rows:
+        cols = [c[0] for c in tables()[t]]
+        if 'Descrip' in cols and rnd.random() < 0.85:
+            v = list(v)
+            v[cols.index('Descrip')] = rnd.choice(DESCRIPTIONS)
+        out.append((t, v))
+    return out
+
+
 def encode(d, rng=None):
     """the .xtuml text of a diagram; the INSERT statements are shuffled when an rng is given"""
     rows = rows_of(d)
+    if d.get('descr') is not None:
+        rows = _with_descriptions(rows, d['descr'])
     texts = [_row_text(t, v) for t, v in rows]
     if rng is not None:
         # the order of the R_PART rows of ONE relationship is part of the diagram ('rows': an unformalised simple
@@ -1708,7 +1730,8 @@ def canon_xml(t):
 
 def tree_of_element(el):
     """xml.etree element (as built by build_schema) -> tree"""
-    return [el.tag, [[k, v] for k, v in el.attrib.items()], [tree_of_element(c) for c in el]]
+    # comments / processing instructions (their tag is a function, not a name) declare nothing
+    return [el.tag, [[k, v] for k, v in el.attrib.items()], [tree_of_element(c) for c in el if isinstance(c.tag, str)]]
 
 
 def tree_of_etree_parsed(el):
@@ -1777,6 +1800,17 @@ def py_apply_xedit(d, e):
     else:
         raise ValueError(k)
     return d
+
+
+def pop_set_descriptions(m, seed):
+    """non-empty description texts on a LOADED population (real models): every Descrip attribute of the classes the
+    generators read"""
+    import random
+    rnd = random.Random(seed)
+    for kind in ('C_C', 'EP_PKG', 'S_DT', 'S_ENUM', 'O_OBJ', 'O_ATTR', 'R_REL'):
+        for inst in m.select_many(kind):
+            if rnd.random() < 0.85:
+                inst.Descrip = rnd.choice(DESCRIPTIONS)
 
 
 def pop_apply_xedit(m, e):
